@@ -27,6 +27,9 @@ type CliWorld struct {
 	cliSock  *UDPSock
 	stream   bool     // the client speaks TURN over a stream (its Conn is a STUNConn over simnet TCP)
 	cliConn  *TCPConn // client end of that stream
+	cliOut, cliIn []byte // not yet deframed bytes written / read by the client on the stream
+	cliOutBad bool
+	cliFrames int
 	srvConn  *TCPConn // scripted server end
 	srvIn    []byte
 	cliAddr  *net.UDPAddr
@@ -168,6 +171,12 @@ func (w *CliWorld) UDPRead(s *UDPSock, d *Dgram, n int) {
 	now := w.K.Now()
 	w.mu.Lock()
 	defer w.mu.Unlock()
+	w.clientGot(d.Payload, now)
+}
+
+// clientGot (under w.mu): one message handed to the client by its transport.
+func (w *CliWorld) clientGot(payload []byte, now int64) {
+	d := &Dgram{Payload: payload}
 	if msg, ok := decodeSTUN(d.Payload); ok && (msg.Type.Class == stun.ClassSuccessResponse || msg.Type.Class == stun.ClassErrorResponse) {
 		id := 0
 		if a, ok := getXORAddr(msg, stun.AttrXORMappedAddress); ok && msg.Type.Method == stun.MethodBinding {
@@ -189,6 +198,11 @@ func (w *CliWorld) UDPWrite(s *UDPSock, to *net.UDPAddr, b []byte) {
 	now := w.K.Now()
 	w.mu.Lock()
 	defer w.mu.Unlock()
+	w.clientSent(b, now)
+}
+
+// clientSent (under w.mu): one message the client put on the wire.
+func (w *CliWorld) clientSent(b []byte, now int64) {
 	rec := wireRec{T: now, What: classifyWire(b)}
 	if msg, ok := decodeSTUN(b); ok {
 		rec.TID = msg.TransactionID
@@ -220,13 +234,89 @@ func (w *CliWorld) UDPWrite(s *UDPSock, to *net.UDPAddr, b []byte) {
 func (w *CliWorld) UDPDeliverScripted(s *UDPSock, d *Dgram) {}
 func (w *CliWorld) SockOpen(info *SockInfo)                {}
 func (w *CliWorld) SockClose(info *SockInfo)               {}
-func (w *CliWorld) TCPRead(c *TCPConn, b []byte)           {}
+
+// The client speaks TURN over a stream: what it writes must be a sequence of whole frames
+// (STUN messages, ChannelData padded to four bytes - RFC 5766 section 11.5), however it
+// splits them into writes; the frames are then judged like datagrams. What it reads is
+// deframed the same way: a response counts as delivered when its last byte has been read.
+func (w *CliWorld) TCPWrite(c *TCPConn, b []byte) {
+	if !w.stream || c != w.cliConn {
+		return
+	}
+	now := w.K.Now()
+	w.mu.Lock()
+	defer w.mu.Unlock()
+	if w.cliOutBad {
+		return
+	}
+	w.cliOut = append(w.cliOut, b...)
+	for len(w.cliOut) >= 4 {
+		n, _ := refFrameLen(w.cliOut)
+		if !validFrameStart(w.cliOut) {
+			w.cliOutBad = true
+			w.viol("C13", "client-stream-misframed", nil, "the client's byte stream toward the server stops being a sequence of STUN / padded ChannelData frames at %x (after %d whole frames)", w.cliOut[:min(len(w.cliOut), 12)], w.cliFrames)
+			return
+		}
+		if n > len(w.cliOut) {
+			return
+		}
+		w.cliFrames++
+		w.clientSent(append([]byte(nil), w.cliOut[:n]...), now)
+		w.cliOut = w.cliOut[n:]
+	}
+}
+func (w *CliWorld) TCPRead(c *TCPConn, b []byte) {
+	if !w.stream || c != w.cliConn {
+		return
+	}
+	now := w.K.Now()
+	w.mu.Lock()
+	defer w.mu.Unlock()
+	w.cliIn = append(w.cliIn, b...)
+	for len(w.cliIn) >= 4 {
+		n, _ := refFrameLen(w.cliIn)
+		if !validFrameStart(w.cliIn) {
+			w.cliIn = nil // hostile bytes from the scripted server: the reference gives up too
+			return
+		}
+		if n > len(w.cliIn) {
+			return
+		}
+		w.clientGot(append([]byte(nil), w.cliIn[:n]...), now)
+		w.cliIn = w.cliIn[n:]
+	}
+}
+
+// validFrameStart: the first bytes can begin a STUN message (two zero bits, 4-aligned length,
+// the magic cookie once eight bytes are there) or a ChannelData frame (number 0x4000-0x7FFF).
+func validFrameStart(b []byte) bool {
+	if len(b) < 4 {
+		return true
+	}
+	switch b[0] & 0xC0 {
+	case 0x00:
+		if b[3]&3 != 0 {
+			return false
+		}
+		if len(b) >= 8 && !(b[4] == 0x21 && b[5] == 0x12 && b[6] == 0xA4 && b[7] == 0x42) {
+			return false
+		}
+		return true
+	case 0x40:
+		return true
+	}
+	return false
+}
 func (w *CliWorld) TCPReadCall(c *TCPConn)                 {}
-func (w *CliWorld) TCPWrite(c *TCPConn, b []byte)          {}
 func (w *CliWorld) TCPAccepted(l *TCPListener, c *TCPConn) {}
 func (w *CliWorld) TCPClosed(c *TCPConn, how string)       {}
 func (w *CliWorld) TCPReadEnd(c *TCPConn, err error)       {}
 func (w *CliWorld) IOFaulted(role, op, addr string)        {}
+
+// hostileStream: the client speaks TURN over a stream and the plan feeds it hostile bytes.
+func (w *CliWorld) hostileStream() bool {
+	return w.stream && strings.HasPrefix(w.P.Flavor, "hostile")
+}
 
 func (w *CliWorld) viol(prop, class string, key map[string]string, format string, args ...any) {
 	w.K.Violate(&Violation{Property: prop, Class: class, Key: key, Detail: fmt.Sprintf(format, args...)})
@@ -606,8 +696,8 @@ func rtoSchedule(rtoNS int64) (offs []int64, fail int64) {
 
 // checkTransactions: the C12 oracle, evaluated at idle points and at the end.
 func (w *CliWorld) checkTransactions(final bool) {
-	if w.stream {
-		return // the observer does not parse the stream: transactions are judged in the datagram plans
+	if w.hostileStream() {
+		return // bytes that cannot start a frame end a stream for good: the timetable is judged in the other plans
 	}
 	w.mu.Lock()
 	defer w.mu.Unlock()
